@@ -9,7 +9,8 @@ from .c03 import ASSUME
 def configs(ctx):
     items = []
     sizes = [(2, 2), (4, 6), (7, 9), (10, 12), (16, 16), (13, 8)] if ctx.quick else \
-        [(2, 2), (3, 3), (4, 6), (5, 8), (7, 9), (10, 12), (12, 10), (16, 16), (13, 8), (6, 14), (9, 15), (20, 18)]
+        [(2, 2), (3, 3), (4, 6), (5, 8), (7, 9), (10, 12), (12, 10), (16, 16), (13, 8), (6, 14), (9, 15), (20, 18),
+         (24, 20), (32, 12), (11, 11), (18, 30), (8, 40), (28, 28), (17, 23), (4, 4), (6, 6), (26, 14)]
     for b in dtlib.BIORT:
         for q in dtlib.QSHIFT:
             for i, (H, W) in enumerate(sizes):
